@@ -234,7 +234,7 @@ def run_history(spec):
                        "asm_names": oi["assemblies_to_group"],
                        "data": [curve(spec["curves"][t], avgp[t], t_in) for t in range(ntyp)]}
     o.classes.update({"n_asm": N, "n_groups": n, "n_types": ntyp, "dp_limit": spec["dp_limit"] is not None, "regroup": spec["regroup"],
-                      "iterations": len(spec["iters"]), "coolant": spec["coolant"]})
+                      "iterations": len(spec["iters"]), "coolant": spec["coolant"], "focus": spec.get("focus", "general")})
     try:
         drive.guarded("group_by_power", orf.group_by_power)
     except drive.Rejected:
@@ -340,7 +340,22 @@ def history_specs(draw, q):
                       "pscale": [1.0, gen.r6(draw(gen.fl(0.8, 1.2)))]})
     dp_limit = None
     dT_bulk = draw(gen.fl(50.0, 250.0))
-    if draw(st.integers(0, 2)) == 0:
+    focus = N >= 4 and ntyp >= 2 and draw(st.integers(0, 3)) == 0
+    if focus:
+        # limit + regrouping class: types with clearly different pressure-drop curves, a limit a little above the pressure
+        # drop of the average flow, several iterations with enough scatter in the synthetic sweep results to move assemblies
+        # between groups (so that the membership on which a limit is evaluated changes between distribute() calls)
+        for c in curves[1:]:
+            c["dp_c"] = gen.r6(curves[0]["dp_c"] * draw(gen.fl(1.5, 8.0)))
+        n_groups = draw(st.integers(2, min(4, N - 1)))
+        iters = []
+        for _ in range(draw(st.integers(2, 4))):
+            iters.append({"noise": [gen.r6(draw(gen.fl(0.6, 1.4))) for _ in range(draw(st.integers(3, 7)))],
+                          "pscale": [1.0, gen.r6(draw(gen.fl(0.8, 1.2)))]})
+        m_avg = sum(powers) / 1275.0 / dT_bulk / N
+        f = draw(gen.fl(1.02, 2.5))
+        dp_limit = float("%.6g" % (max(c["dp_c"] * (m_avg * f) ** c["dp_n"] for c in curves) / 1e6))
+    elif draw(st.integers(0, 2)) == 0:
         # (MPa) placed relative to the pressure drop at the average flow so that none, one or several groups are limited
         m_avg = sum(powers) / 1275.0 / dT_bulk / N
         f = draw(st.sampled_from([3.0, 2.0]) | gen.fl(0.7, 5.0))
@@ -348,10 +363,11 @@ def history_specs(draw, q):
     return {"ids": ids, "types": types, "powers": powers, "t_in": t_in, "t_bulk": gen.r6(t_in + dT_bulk),
             "curves": curves, "n_groups": n_groups, "cutoff": 0.05, "delta": 0.001,
             "opt": draw(st.sampled_from(["peak coolant temp", "peak clad MW temp", "peak clad ID temp", "peak fuel temp"])),
-            "dp_limit": dp_limit, "regroup": draw(st.sampled_from(["never", "once", "every"])),
+            "dp_limit": dp_limit, "regroup": draw(st.sampled_from(["once", "every"] if focus else ["never", "once", "every"])),
             "regroup_tol": gen.r6(draw(st.sampled_from([0.05, 0.0]) | gen.fl(0.0, 0.2))),
             "improve_tol": gen.r6(draw(st.sampled_from([0.05, 0.0]) | gen.fl(0.0, 0.1))),
-            "timesteps": draw(st.integers(1, 2)), "iters": iters, "coolant": draw(st.sampled_from(["const", "sodium"]))}
+            "timesteps": draw(st.integers(1, 2)), "iters": iters, "coolant": draw(st.sampled_from(["const", "sodium"])),
+            "focus": "limit_and_regroup" if focus else "general"}
 
 
 # ------------------------------------------------------------------------------------------------
